@@ -1,11 +1,20 @@
-(* Property C08, the tree level of the two-site gate (TEBD._apply_one_trotter_step_two_site) over the
-   Layer-W store, on top of the proved store invariant (TTN/Inv*.v):
-     - absorb_into_open_legs preserves the invariant;
-     - the contraction / absorption / split chain of one gate preserves it, the recorded leg
-       specifications describe the contracted node truthfully, the identifiers are admissible;
-     - the gate gives back the same tree: root, every other node (record and tensor) unchanged, the
-       temporary identifier gone (two_site_gate_same_tree);
-     - every gate application and every TEBD step preserve wfb (list induction).
+(* Property C08, the tree and diagram level of the two-site gate (TEBD._apply_one_trotter_step_two_site:
+   legs_before_combination, contract_nodes, absorb_into_open_legs, split_nodes) over the Layer-W
+   store, on top of the proved store invariant (TTN/Inv*.v).  Contents:
+     - absorb_into_open_legs preserves the invariant (absorb_preserves_wf);
+     - gate_half / two_site_chain: the contraction, absorption, split chain preserves the invariant,
+       the recorded leg specifications describe the contracted node truthfully, the identifiers are
+       admissible;
+     - A1  two_site_gate_same_tree: the gate gives back the same tree, root unchanged, temporary
+           identifier gone, every node other than the pair unchanged (record and tensor);
+           acceptance: contract_succeeds, absorb_succeeds, split_succeeds, two_site_gate_succeeds,
+           two_site_gate_total (no sub-operation raises on two neighbouring nodes);
+     - A2  two_site_gate_diagram: the appended kernel definition, the gate atom's wires, the two new
+           single-atom tensors, the open wires of the restored pair;
+     - A3  apply_gate / tebd_step / tebd_steps preserve wfb and the tree (list induction);
+           tebd_step_accepts: every list of gates that fit the tree (gate_fits: one node or two
+           neighbouring nodes, tensor shape = their open dimensions twice) is accepted, and the open
+           dimensions of every node (odims) are kept.
    New file; the model files (TTN/Store.v, TEBD/Trotter.v) are untouched. *)
 From Coq Require Import List Arith Bool Lia Permutation.
 From PTN Require Import TTN.Store TTN.StoreProofs TTN.Inv TTN.InvProofs TTN.InvNode TTN.InvBuild TTN.InvContract TTN.InvSplit
@@ -377,6 +386,60 @@ Record gate_chain (contr : id) (s : store) (a b : id) (g : tgate) (s1 s2 s3 : st
 
 Lemma reset_parent n : parent (reset_permutation n) = parent n. Proof. reflexivity. Qed.
 Lemma reset_children n : children (reset_permutation n) = children n. Proof. reflexivity. Qed.
+Lemma nlegs_reset n : nlegs (reset_permutation n) = nlegs n.
+Proof. unfold nlegs. cbn. apply seq_length. Qed.
+Lemma nvirt_reset n : nvirt (reset_permutation n) = nvirt n.
+Proof. reflexivity. Qed.
+Lemma nopen_reset n : nopen (reset_permutation n) = nopen n.
+Proof. unfold nopen. rewrite nlegs_reset, nvirt_reset. reflexivity. Qed.
+
+(* the contraction half: invariant, truthful specifications, admissible identifiers *)
+Lemma gate_half contr s a b gshape s1 s2 na nb u v :
+  wf s -> aget a (nodes s) = Some na -> aget b (nodes s) = Some nb -> pair_ok a na b nb ->
+  ~ In contr (akeys (nodes s)) -> lbc_nodes a na b nb = Some (u, v) ->
+  contract_nodes s a b contr = Some s1 -> absorb_open s1 contr gshape = Some s2 ->
+  wf s1 /\ wf s2 /\ ids_ok s2 contr a b /\
+  exists nd, aget contr (nodes s2) = Some nd /\ leg_ok nd u /\ leg_ok nd v /\ nvirt nd = nvirt na + nvirt nb - 2 /\
+             nopen nd = nopen na + nopen nb.
+Proof.
+  intros W Ea Eb Hok Hnew Hl Hcn Hab.
+  assert (Hca : contr <> a) by (intros ->; apply Hnew; eapply aget_Some_keys; eauto).
+  assert (Hcb : contr <> b) by (intros ->; apply Hnew; eapply aget_Some_keys; eauto).
+  assert (Hnew' : contr = a \/ contr = b \/ ~ In contr (akeys (nodes s))) by tauto.
+  pose proof (contract_preserves_wf _ _ _ _ _ W Hcn Hnew') as W1.
+  pose proof (absorb_preserves_wf _ _ _ _ W1 Hab) as W2.
+  destruct (contract_inv2 _ _ _ _ _ W Hcn Hnew') as (p & c & s2c & pn & cn & nn & ax & nt & F & Hoth & (pn0 & cn0 & Ep0 & Ec0 & -> & ->) & _).
+  destruct F as [Fpc Fab Fwf2 Fp Fc Fpar Fpp Fpc' Fax Ftd Fnn Fkeys Flax Fatoms Fends Ftkeys Fview].
+  destruct Fview as (V1 & V2 & V3 & V4 & V5 & V6 & V7 & V8 & V9).
+  destruct (create_contracted_node_structure _ _ _ _ _ _ Fnn) as [Hnp Hnc]. rewrite reset_parent in Hnp. rewrite !reset_children in Hnc.
+  destruct (absorb_open_inv _ _ _ _ Hab) as (s1a & nd & t & Hacc & _ & _ & _ & En2 & _).
+  destruct (access_result _ _ _ _ _ Hacc) as (B1 & _ & _ & B4 & _ & _ & _ & B8 & (nd0 & B9 & B10 & B11)).
+  rewrite V2 in B9. injection B9 as <-.
+  destruct (contract_open_rule _ _ _ _ _ na nb W Hcn Hnew' Ea Eb) as (nn' & Enn' & Hopen & _).
+  rewrite V2 in Enn'. injection Enn' as <-.
+  split; [exact W1|]. split; [exact W2|]. split.
+  { unfold ids_ok. rewrite En2, B8. split; right; apply aget_None.
+    - destruct Fpc as [[-> ->]|[-> ->]]; [apply V3|apply V4]; congruence.
+    - destruct Fpc as [[-> ->]|[-> ->]]; [apply V4|apply V3]; congruence. }
+  exists nd. split; [rewrite En2; exact B1|].
+  assert (Hno : nopen nd = nopen na + nopen nb).
+  { destruct (access_inv _ _ _ _ _ Hacc) as (x & y & X1 & _ & -> & _). rewrite V2 in X1. injection X1 as <-.
+    rewrite nopen_reset.
+    rewrite <- (open_of_length nn (tens s1 contr)), Hopen, app_length, !open_of_length. reflexivity. }
+  cut (leg_ok nd u /\ leg_ok nd v /\ nvirt nd = nvirt na + nvirt nb - 2); [tauto|].
+  apply (lbc_leg_ok a na b nb u v nd Hok Hl).
+  - intros Hin. rewrite B10, B11, Hnp, Hnc.
+    destruct Fpc as [[-> ->]|[-> ->]].
+    + rewrite Ea in Ep0. injection Ep0 as <-. rewrite Eb in Ec0. injection Ec0 as <-. rewrite Nat.eqb_refl. auto.
+    + exfalso. rewrite Ea in Ec0. injection Ec0 as <-. rewrite reset_parent in Fpar.
+      destruct (po_adj _ _ _ _ Hok) as [(_ & _ & _ & Hx)|(_ & _ & Hx & _)]; contradiction.
+  - intros Hin. rewrite B10, B11, Hnp, Hnc.
+    destruct Fpc as [[-> ->]|[-> ->]].
+    + exfalso. rewrite Eb in Ec0. injection Ec0 as <-. rewrite reset_parent in Fpar.
+      destruct (po_adj _ _ _ _ Hok) as [(_ & _ & Hx & _)|(_ & _ & _ & Hx)]; contradiction.
+    + rewrite Eb in Ep0. injection Ep0 as <-. rewrite Ea in Ec0. injection Ec0 as <-.
+      destruct (Nat.eqb_spec b a) as [E|_]; [congruence|]. auto.
+Qed.
 
 Lemma two_site_chain contr s a b g s1 s2 s3 na :
   wf s -> aget a (nodes s) = Some na -> aget contr (nodes s) = None ->
@@ -399,36 +462,10 @@ Proof.
   assert (Hca : contr <> a) by (intros ->; congruence).
   assert (Hcb : contr <> b) by (intros ->; congruence).
   assert (Hnew : ~ In contr (akeys (nodes s))) by (apply aget_None; exact Hc).
-  assert (Hnew' : contr = a \/ contr = b \/ ~ In contr (akeys (nodes s))) by tauto.
-  pose proof (contract_preserves_wf _ _ _ _ _ W Hcn Hnew') as W1.
-  pose proof (absorb_preserves_wf _ _ _ _ W1 Hab) as W2.
-  destruct (contract_inv2 _ _ _ _ _ W Hcn Hnew') as (p & c & s2c & pn & cn & nn & ax & nt & F & Hoth & (pn0 & cn0 & Ep0 & Ec0 & -> & ->) & _).
-  destruct F as [Fpc Fab Fwf2 Fp Fc Fpar Fpp Fpc' Fax Ftd Fnn Fkeys Flax Fatoms Fends Ftkeys Fview].
-  destruct Fview as (V1 & V2 & V3 & V4 & V5 & V6 & V7 & V8 & V9).
-  destruct (create_contracted_node_structure _ _ _ _ _ _ Fnn) as [Hnp Hnc]. rewrite reset_parent in Hnp. rewrite !reset_children in Hnc.
-  destruct (absorb_open_inv _ _ _ _ Hab) as (s1a & nd & t & Hacc & _ & _ & _ & En2 & _).
-  destruct (access_result _ _ _ _ _ Hacc) as (B1 & _ & _ & B4 & _ & _ & _ & B8 & (nd0 & B9 & B10 & B11)).
-  rewrite V2 in B9. injection B9 as <-.
-  assert (Hspec0 : forall ndx, aget contr (nodes t2) = Some ndx -> leg_ok ndx u /\ leg_ok ndx v /\ nvirt ndx = nvirt na + nvirt nb - 2).
-  { intros ndx Ex. rewrite En2, B1 in Ex. injection Ex as <-.
-    apply (lbc_leg_ok a na b nb u v nd Hok Hl).
-    - intros Hin. rewrite B10, B11, Hnp, Hnc.
-      destruct Fpc as [[-> ->]|[-> ->]].
-      + rewrite Ea in Ep0. injection Ep0 as <-. rewrite Eb in Ec0. injection Ec0 as <-. rewrite Nat.eqb_refl. auto.
-      + exfalso. rewrite Ea in Ec0. injection Ec0 as <-. rewrite reset_parent in Fpar.
-        destruct (po_adj _ _ _ _ Hok) as [(_ & _ & _ & Hx)|(_ & _ & Hx & _)]; contradiction.
-    - intros Hin. rewrite B10, B11, Hnp, Hnc.
-      destruct Fpc as [[-> ->]|[-> ->]].
-      + exfalso. rewrite Eb in Ec0. injection Ec0 as <-. rewrite reset_parent in Fpar.
-        destruct (po_adj _ _ _ _ Hok) as [(_ & _ & Hx & _)|(_ & _ & _ & Hx)]; contradiction.
-      + rewrite Eb in Ep0. injection Ep0 as <-. rewrite Ea in Ec0. injection Ec0 as <-.
-        destruct (Nat.eqb_spec b a) as [E|_]; [congruence|]. auto. }
-  assert (Hspec : spec_ok t2 contr u v) by (intros ndx Ex; destruct (Hspec0 ndx Ex) as (? & ? & _); auto).
-  assert (Hnv : forall ndx, aget contr (nodes t2) = Some ndx -> nvirt ndx = nvirt na + nvirt nb - 2) by (intros ndx Ex; apply (Hspec0 ndx Ex)).
-  assert (Hids : ids_ok t2 contr a b).
-  { unfold ids_ok. rewrite En2, B8. split; right; apply aget_None.
-    - destruct Fpc as [[-> ->]|[-> ->]]; [apply V3|apply V4]; congruence.
-    - destruct Fpc as [[-> ->]|[-> ->]]; [apply V4|apply V3]; congruence. }
+  destruct (gate_half _ _ _ _ _ _ _ _ _ _ _ W Ea Eb Hok Hnew Hl Hcn Hab) as (W1 & W2 & Hids & nd & End & L1 & L2 & Hnv0 & _).
+  assert (Hspec : spec_ok t2 contr u v) by (intros ndx Ex; rewrite End in Ex; injection Ex as <-; auto).
+  assert (Hnv : forall ndx, aget contr (nodes t2) = Some ndx -> nvirt ndx = nvirt na + nvirt nb - 2)
+    by (intros ndx Ex; rewrite End in Ex; injection Ex as <-; auto).
   pose proof (split_preserves_wf _ _ _ _ _ _ _ _ _ _ W2 Hs Hspec Hids) as W3.
   exists nb, u, v. constructor; auto.
 Qed.
@@ -694,13 +731,6 @@ Proof.
   intros Hp Hc. unfold find_leg_values. erewrite map_ext; [reflexivity|]. intros x. apply neighbour_index_ext; assumption.
 Qed.
 
-Lemma nlegs_reset n : nlegs (reset_permutation n) = nlegs n.
-Proof. unfold nlegs. cbn. apply seq_length. Qed.
-Lemma nvirt_reset n : nvirt (reset_permutation n) = nvirt n.
-Proof. reflexivity. Qed.
-Lemma nopen_reset n : nopen (reset_permutation n) = nopen n.
-Proof. unfold nopen. rewrite nlegs_reset, nvirt_reset. reflexivity. Qed.
-
 (* the tensor the SVD kernel receives: the contraction of the two old tensors (in the order
    _create_contracted_node gives the legs), the gate atom [ga] with its inputs on the old open wires
    (now summed) and its fresh output wires in their place *)
@@ -738,6 +768,7 @@ Theorem two_site_gate_diagram_wf contr s a b g s1 s2 s3 na :
     aget a (tensors s3) = Some {| axes := permute 0 lu (axes G) ++ [bw]; atoms := [S ga]; bnd := [] |} /\
     aget b (tensors s3) = Some {| axes := bw :: permute 0 lv (axes G); atoms := [S (S ga)]; bnd := [] |} /\
     next_atom s3 = S (S (S ga)) /\ next_wire s3 = S bw /\
+    (exists bd, dims s3 = (dims s ++ combine outw (firstn (nopen na + nopen nb) (t_shape g))) ++ [(bw, bd)]) /\
     (* the gate's output wires take the places of the open legs: node1's first, in order *)
     exists na' nb', aget a (nodes s3) = Some na' /\ aget b (nodes s3) = Some nb' /\
       open_of na' (tens s3 a) = seq (next_wire s) (nopen na) /\
@@ -777,7 +808,7 @@ Proof.
     rewrite <- Hnopen. unfold nopen. nlia. }
   (* split *)
   destruct (split_new_def _ _ _ _ _ _ _ _ _ _ {| kq := 0; kr := 0; kbond := 0; kinput := empty_sarr; kkind := 0; kmode := None |} W2 Hs)
-    as (s2a & nd2 & t2 & ol & il & bd & Hacc2 & Hlog2 & Eol & Eil & Hperm & _ & Hlast & Hdefs & Toid & Tiid & Nw3 & Na3 & _).
+    as (s2a & nd2 & t2 & ol & il & bd & Hacc2 & Hlog2 & Eol & Eil & Hperm & _ & Hlast & Hdefs & Toid & Tiid & Nw3 & Na3 & Dm3 & _).
   destruct (split_view_of _ _ _ _ _ _ _ _ _ _ W2 Hs Hspec Hids)
     as (s2a' & nd2' & t2' & ol' & il' & on2 & in2 & cO & cI & bd' & Hacc2' & _ & Eol' & Eil' & _ & _ & _ & _ & _ & Hatab & _).
   rewrite Hacc2 in Hacc2'. injection Hacc2' as <- <- <-. rewrite Eol in Eol'. injection Eol' as <-. rewrite Eil in Eil'. injection Eil' as <-.
@@ -811,6 +842,8 @@ Proof.
   split; [rewrite Toid, NA2, NW2; reflexivity|].
   split; [rewrite Tiid, NA2, NW2; reflexivity|].
   split; [rewrite Na3, NA2; reflexivity|]. split; [rewrite Nw3, NW2; reflexivity|].
+  split.
+  { exists bd. rewrite Dm3, NW2, Ed2, Ndm1a, Ndm1, Nw1a, Nw1, X3, nopen_reset, Hnopen. reflexivity. }
   assert (End1 : aget contr (nodes s2) = Some nd1) by (rewrite En2, X5; cbn; apply aget_aset_same).
   destruct (split_open_legs _ _ _ _ _ _ _ _ _ _ nd1 W2 Hs Hspec Hids End1) as (no & ni & Eno & Eni & Ho & Hi & _).
   exists no, ni. split; [exact Eno|]. split; [exact Eni|].
@@ -828,5 +861,868 @@ Proof.
     unfold wire in *. rewrite Hvw, seq_length in Q. exact Q.
   - pose proof (E1 (firstn (nvirt nn) (laxes nn nt) ++ seq (next_wire s) (nopen na)) (seq (next_wire s + nopen na) (nopen nb))) as Q.
     unfold wire in *. rewrite app_length, Hvw, !seq_length, <- app_assoc in Q. exact Q.
+Qed.
+
+(* ==== acceptance: when do the sub-operations succeed ================================================ *)
+Lemma pop_some {A} (d : A) : forall i (l : list A), i < length l -> exists r, pop i l = Some (nth i l d, r) /\ S (length r) = length l.
+Proof.
+  induction i as [|i IH]; intros [|x t] H; cbn in *; try lia.
+  - eexists. split; reflexivity.
+  - destruct (IH t ltac:(lia)) as (r & -> & Hr). eexists. split; [reflexivity|]. cbn. lia.
+Qed.
+
+Lemma pop_n_some {A} : forall k i (l : list A), i + k <= length l -> exists xs r, pop_n k i l = Some (xs, r) /\ length r + k = length l.
+Proof.
+  induction k as [|k IH]; intros i l H; cbn.
+  - exists [], l. split; [reflexivity|lia].
+  - destruct l as [|x0 t0] eqn:El; [cbn in H; lia|]. rewrite <- El in *.
+    destruct (pop_some x0 i l ltac:(lia)) as (r & -> & Hr).
+    destruct (IH i r ltac:(lia)) as (xs & r' & -> & Hr'). eexists _, _. split; [reflexivity|]. lia.
+Qed.
+
+Lemma insert_perm {A} (x : A) : forall i l, Permutation (insert i x l) (x :: l).
+Proof.
+  induction i as [|i IH]; intros [|y t]; cbn; try apply Permutation_refl.
+  rewrite IH. apply perm_swap.
+Qed.
+
+Lemma olc_loop_some orig : forall l n, (forall x, In x l -> orig <= snd (fst x)) -> exists n', olc_loop orig n l = Some n'.
+Proof.
+  induction l as [|[[cid leg] val] t IH]; intros n H; cbn [olc_loop].
+  - eauto.
+  - pose proof (H _ (or_introl eq_refl)) as H0. cbn in H0. destruct (Nat.ltb_spec leg orig); [lia|].
+    apply IH. intros x Hx. apply H. right. exact Hx.
+Qed.
+
+Lemma olc_loop_perm orig : forall l n n', olc_loop orig n l = Some n' ->
+  (forall x, In x l -> In (snd x) (perm n)) -> Permutation (perm n') (perm n).
+Proof.
+  induction l as [|[[cid leg] val] t IH]; intros n n' H Hin; cbn [olc_loop] in H.
+  - injection H as <-. apply Permutation_refl.
+  - destruct (leg <? orig); [discriminate|].
+    pose proof (Hin _ (or_introl eq_refl)) as H0. cbn in H0.
+    assert (P : Permutation (insert (nvirt n) val (remove_first val (perm n))) (perm n)).
+    { rewrite insert_perm. symmetry. apply remove_first_perm. exact H0. }
+    rewrite (IH _ _ H); [exact P|]. cbn [perm]. intros x Hx. apply (Permutation_in _ (Permutation_sym P)). apply Hin. right. exact Hx.
+Qed.
+
+Lemma olc_some n d : (forall cl, In cl d -> nvirt n <= snd cl < nlegs n) ->
+  exists n', open_legs_to_children n d = Some n' /\ nlegs n' = nlegs n.
+Proof.
+  intros H. unfold open_legs_to_children.
+  assert (Hf : forallb (fun cl : id * nat => snd cl <? nlegs n) d = true).
+  { apply forallb_forall. intros cl Hcl. apply Nat.ltb_lt. apply (H cl Hcl). }
+  rewrite Hf.
+  set (l := map (fun cl : id * nat => (fst cl, snd cl, nth (snd cl) (perm n) 0)) d).
+  destruct (olc_loop_some (nvirt n) l n) as [n' E].
+  { intros x Hx. unfold l in Hx. apply in_map_iff in Hx. destruct Hx as (cl & <- & Hcl). cbn. apply (H cl Hcl). }
+  exists n'. split; [exact E|]. unfold nlegs. apply Permutation_length. apply (olc_loop_perm _ _ _ _ E).
+  intros x Hx. unfold l in Hx. apply in_map_iff in Hx. destruct Hx as (cl & <- & Hcl). cbn. apply nth_In. apply (H cl Hcl).
+Qed.
+
+Lemma oltp_some shp p leg : leg < length shp ->
+  exists q, move leg 0 (seq 0 (length shp)) = Some q /\ Permutation q (seq 0 (length shp)) /\
+    open_leg_to_parent (new_node shp) p leg = Some {| parent := Some p; children := []; perm := q; shape := shp |}.
+Proof.
+  intros H. unfold open_leg_to_parent. cbn [is_root new_node parent negb].
+  assert (Hok : open_leg_ok (new_node shp) leg = true).
+  { unfold open_leg_ok, nopen, nlegs, nvirt, nparents. cbn [new_node parent children perm length Nat.add]. rewrite seq_length.
+    rewrite (proj2 (Nat.eqb_neq (length shp - 0) 0)) by lia. rewrite (proj2 (Nat.ltb_lt leg (length shp)) H).
+    rewrite (proj2 (Nat.ltb_ge leg 0)) by lia. reflexivity. }
+  fold (new_node shp). rewrite Hok. cbn [negb perm children shape new_node].
+  unfold move. destruct (pop_some 0 leg (seq 0 (length shp)) ltac:(rewrite seq_length; exact H)) as (r & E & Hr).
+  rewrite E. eexists. split; [reflexivity|]. split; [|reflexivity].
+  cbn [insert]. 
+  assert (P : forall {A} i (l : list A) x r, pop i l = Some (x, r) -> Permutation (x :: r) l).
+  { intros A. induction i as [|i IH]; intros [|y t] x r' Hp; cbn in Hp; try discriminate.
+    - injection Hp as <- <-. apply Permutation_refl.
+    - destruct (pop i t) as [[z t']|] eqn:E'; [|discriminate]. injection Hp as <- <-.
+      rewrite perm_swap. apply perm_skip. apply (IH _ _ _ E'). }
+  apply (P _ _ _ _ _ E).
+Qed.
+
+(* _create_contracted_node never raises on two neighbouring well-formed nodes *)
+Lemma ccn_succeeds shp pn cn c first :
+  In c (children pn) -> nvirt pn <= nlegs pn -> nvirt cn <= nlegs cn -> nparents cn = 1 ->
+  length shp = (nlegs pn - 1) + (nlegs cn - 1) ->
+  exists nn, create_contracted_node shp pn cn c first = Some nn.
+Proof.
+  intros Hc Hvp Hvc Hpc Hlen. unfold create_contracted_node.
+  set (pch := remove_first c (children pn)).
+  assert (Hpch : S (length pch) = length (children pn)) by (apply InvContract.remove_first_length; exact Hc).
+  set (N := length shp) in *. set (np := nparents pn). set (lp := nlegs pn) in *. set (lc := nlegs cn) in *.
+  set (cc := children cn).
+  assert (Eop : lp = np + S (length pch) + nopen pn).
+  { unfold nopen. fold lp. unfold nvirt in *. fold np in Hvp |- *. nlia. }
+  assert (Eoc : lc = 1 + length cc + nopen cn).
+  { unfold nopen. fold lc. unfold nvirt in *. rewrite Hpc in *. fold cc in Hvc |- *. nlia. }
+  assert (EN : N = np + length pch + nopen pn + length cc + nopen cn) by nlia.
+  assert (R1 : exists n1, (match parent pn with Some pp => open_leg_to_parent (new_node shp) pp 0 | None => Some (new_node shp) end) = Some n1
+                /\ nvirt n1 = np /\ nlegs n1 = N /\ children n1 = [] /\ parent n1 = parent pn).
+  { destruct (parent pn) as [pp|] eqn:Epp.
+    - destruct (oltp_some shp pp 0) as (q & Hm & Hq & E); [unfold np, nparents in EN; rewrite Epp in EN; fold N; nlia|].
+      eexists. split; [exact E|]. unfold nvirt, nparents, nlegs, np, nparents. cbn. rewrite Epp.
+      apply Permutation_length in Hq. rewrite seq_length in Hq. auto.
+    - eexists. split; [reflexivity|]. unfold nvirt, nparents, nlegs, np, nparents. cbn. rewrite Epp, seq_length. auto. }
+  destruct R1 as (n1 & -> & Hv1 & Hl1 & Hc1 & Hp1).
+  set (d := if first then enum_from np pch ++ enum_from (lp - 1) cc else enum_from (lp - 1) cc ++ enum_from np pch).
+  assert (Hd : forall cl, In cl d -> nvirt n1 <= snd cl < nlegs n1).
+  { intros cl Hcl. rewrite Hv1, Hl1.
+    assert (Hs : In (snd cl) (seq np (length pch)) \/ In (snd cl) (seq (lp - 1) (length cc))).
+    { rewrite <- !enum_from_snd. unfold d in Hcl. destruct first; apply in_app_or in Hcl; destruct Hcl as [Hcl|Hcl];
+        [left|right|right|left]; apply in_map; exact Hcl. }
+    destruct Hs as [Hs|Hs]; apply in_seq in Hs; nlia. }
+  destruct (olc_some n1 d Hd) as (n2 & E2 & Hl2). fold pch np lp cc. fold d. rewrite E2.
+  destruct first; [eauto|].
+  unfold exchange_open_leg_ranges.
+  assert (Hnv : nvirt n2 = np + length cc + length pch).
+  { apply open_legs_to_children_structure in E2. destruct E2 as [Ep2 Ec2]. unfold nvirt, nparents. rewrite Ep2, Ec2, Hc1, Hp1.
+    fold (nparents pn). fold np. unfold d. cbn [app]. rewrite map_app, !enum_from_fst, app_length. nlia. }
+  set (nv := nvirt n2) in *. rewrite Hl2, Hl1.
+  replace (nv + nopen pn <? nv) with false by (symmetry; apply Nat.ltb_ge; lia).
+  replace (nv + nopen pn <? nv + nopen pn) with false by (symmetry; apply Nat.ltb_ge; lia).
+  destruct (pop_n_some (N - (nv + nopen pn)) (nv + nopen pn) (perm n2)) as (v2 & p1 & -> & Hp1len).
+  { fold (nlegs n2). rewrite Hl2, Hl1. nlia. }
+  destruct (pop_n_some (nopen pn) nv p1) as (v1 & p2 & -> & _).
+  { fold (nlegs n2) in Hp1len. rewrite Hl2, Hl1 in Hp1len. nlia. }
+  eauto.
+Qed.
+
+Lemma access_some s n nd t : aget n (nodes s) = Some nd -> aget n (tensors s) = Some t ->
+  access s n = Some (upd_tensors (upd_nodes s (aset n (reset_permutation nd))) (aset n (s_transpose (perm nd) t)),
+                     reset_permutation nd, s_transpose (perm nd) t).
+Proof. intros E1 E2. unfold access. rewrite E1, E2. reflexivity. Qed.
+
+Lemma rnin_some s new old del on :
+  aget old (nodes s) = Some on ->
+  (forall pp, parent on = Some pp -> pp <> new -> exists ppn, aget pp (nodes s) = Some ppn /\ In old (children ppn)) ->
+  exists s', replace_node_in_neighbours s new old del = Some s'.
+Proof.
+  intros Eon Hpp. unfold replace_node_in_neighbours. destruct (Nat.eqb new old); [eauto|]. rewrite Eon.
+  fold (reparent_fold new (children on) (nodes s)).
+  destruct (parent on) as [pp|] eqn:Epp; [|eauto].
+  destruct (Nat.eqb_spec pp new) as [|Hne]; [eauto|].
+  destruct (Hpp pp eq_refl Hne) as (ppn & Eppn & Hin).
+  rewrite reparent_fold_aget, Eppn. cbn [option_map]. rewrite reparent_children.
+  apply memb_In in Hin. rewrite Hin. eauto.
+Qed.
+
+(* contract_nodes never raises on two neighbouring nodes of a well-formed store (fresh identifier) *)
+Theorem contract_succeeds s a b new na nb :
+  wf s -> aget a (nodes s) = Some na -> aget b (nodes s) = Some nb -> In b (neighbouring_nodes na) ->
+  ~ In new (akeys (nodes s)) ->
+  exists s', contract_nodes s a b new = Some s'.
+Proof.
+  intros W Ea Eb Hnbr Hnew.
+  pose proof (pair_ok_wf s a na b nb W Ea Eb Hnbr) as Hok.
+  assert (Hor : exists p c pn0 cn0, determine_parentage s a b = Some (p, c) /\ aget p (nodes s) = Some pn0 /\
+            aget c (nodes s) = Some cn0 /\ parent cn0 = Some p /\ In c (children pn0) /\ parent pn0 <> Some c /\ p <> c /\
+            (p = a \/ p = b) /\ (c = a \/ c = b)).
+  { unfold determine_parentage. rewrite Ea, Eb.
+    destruct (po_adj _ _ _ _ Hok) as [(Hin & Hpb & Hnin & Hpa)|(Hin & Hpa & Hnin & Hpb)].
+    - rewrite Hpb, Nat.eqb_refl. exists a, b, na, nb. repeat split; auto. apply (po_ne _ _ _ _ Hok).
+    - assert (E1 : (match parent nb with Some p => Nat.eqb p a | None => false end) = false).
+      { destruct (parent nb) as [q|]; [|reflexivity]. apply Nat.eqb_neq. congruence. }
+      rewrite E1, Hpa, Nat.eqb_refl. exists b, a, nb, na. repeat split; auto. apply not_eq_sym. apply (po_ne _ _ _ _ Hok). }
+  destruct Hor as (p & c & pn0 & cn0 & Edp & Ep & Ec & Hparc & Hcin & Hppc & Hpc & Hpab & Hcab).
+  assert (Hnp : new <> p /\ new <> c).
+  { split; intros ->; apply Hnew; eapply aget_Some_keys; eauto. }
+  destruct Hnp as [Hnp Hnc].
+  unfold contract_nodes. rewrite Edp.
+  pose proof (wf_tens s p pn0 W Ep) as Etp. pose proof (wf_tens s c cn0 W Ec) as Etc.
+  rewrite (access_some s p pn0 _ Ep Etp).
+  set (pn := reset_permutation pn0). set (pt := s_transpose (perm pn0) (tens s p)).
+  set (s1 := upd_tensors (upd_nodes s (aset p pn)) (aset p pt)).
+  assert (Ec1 : aget c (nodes s1) = Some cn0) by (cbn; rewrite aget_aset_other by congruence; exact Ec).
+  assert (Etc1 : aget c (tensors s1) = Some (tens s c)) by (cbn; rewrite aget_aset_other by congruence; exact Etc).
+  rewrite (access_some s1 c cn0 _ Ec1 Etc1).
+  set (cn := reset_permutation cn0). set (ct := s_transpose (perm cn0) (tens s c)).
+  set (s2 := upd_tensors (upd_nodes s1 (aset c cn)) (aset c ct)).
+  (* the bond *)
+  destruct (ni_par _ _ _ (wf_node s W c cn0 Ec) p Hparc) as (pn0' & ax & Ep' & _ & Hax & Hwire).
+  rewrite Ep in Ep'. injection Ep' as <-.
+  assert (Hax' : neighbour_index pn c = Some ax) by exact Hax. rewrite Hax'.
+  pose proof (ni_virt _ _ _ (wf_node s W p pn0 Ep)) as Hvp. pose proof (ni_virt _ _ _ (wf_node s W c cn0 Ec)) as Hvc.
+  assert (Hnpc : nparents cn0 = 1) by (unfold nparents; rewrite Hparc; reflexivity).
+  assert (Haxlt : ax < nlegs pn0) by (pose proof (neighbour_index_lt pn0 c ax Hppc Hax); lia).
+  assert (H0lt : 0 < nlegs cn0) by (unfold nvirt in Hvc; lia).
+  assert (Hapt : axes pt = lax s p pn0) by reflexivity.
+  assert (Hact : axes ct = lax s c cn0) by reflexivity.
+  destruct (pop_some 0 ax (axes pt)) as (ra & Epa & Hra); [rewrite Hapt; unfold lax; rewrite laxes_length; exact Haxlt|].
+  destruct (pop_some 0 0 (axes ct)) as (rb & Epb & Hrb); [rewrite Hact; unfold lax; rewrite laxes_length; exact H0lt|].
+  unfold s_tensordot. unfold wire in *. rewrite Epa, Epb, Hapt, Hact, <- Hwire, Nat.eqb_refl. cbv beta iota.
+  match goal with |- context [create_contracted_node (map (wdim s) (axes ?T)) _ _ _ _] => set (nt := T) end.
+  (* the new node *)
+  assert (Hshp : length (map (wdim s) (axes nt)) = (nlegs pn - 1) + (nlegs cn - 1)).
+  { rewrite map_length. cbn [axes nt]. rewrite app_length. unfold pn, cn. rewrite !nlegs_reset.
+    rewrite Hapt in Hra. rewrite Hact in Hrb. unfold lax in Hra, Hrb. rewrite laxes_length in Hra, Hrb. nlia. }
+  destruct (ccn_succeeds (map (wdim s) (axes nt)) pn cn c (Nat.eqb p a)) as [nn Enn].
+  { exact Hcin. }
+  { unfold pn. rewrite nlegs_reset. exact Hvp. }
+  { unfold cn. rewrite nlegs_reset. exact Hvc. }
+  { exact Hnpc. }
+  { exact Hshp. }
+  unfold wire in *. rewrite Enn.
+  (* the neighbours *)
+  match goal with |- context [replace_node_in_neighbours ?X new p true] => set (s3 := X) end.
+  assert (Ep3 : aget p (nodes s3) = Some pn).
+  { cbn. rewrite aget_aset_other by congruence. apply aget_aset_same. }
+  assert (Ec3 : aget c (nodes s3) = Some cn) by (cbn; apply aget_aset_same).
+  assert (Hnd3 : NoDup (akeys (nodes s3))) by (cbn; repeat apply NoDup_akeys_aset; apply (wf_nd s W)).
+  destruct (rnin_some s3 new p true pn Ep3) as [s4 E4].
+  { intros pp Hpp _. change (parent pn) with (parent pn0) in Hpp.
+    destruct (ni_par _ _ _ (wf_node s W p pn0 Ep) pp Hpp) as (ppn & i & Epp & Hin & _).
+    assert (pp <> p) by (intros ->; apply (wf_not_self_parent s p pn0 W Ep Hpp)).
+    assert (pp <> c) by congruence.
+    exists ppn. split; [|exact Hin]. cbn. rewrite !aget_aset_other by assumption. exact Epp. }
+  rewrite E4.
+  destruct (rnin_spec s3 new p true s4 pn E4 Hnp Hnd3 Ep3) as (L & Es4 & HndL & HL & _).
+  assert (EcL : aget c L = Some (reparent new (children pn) c cn)).
+  { rewrite HL. cbn [andb]. destruct (Nat.eqb_spec c p) as [|_]; [congruence|].
+    change (parent pn) with (parent pn0). destruct (parent pn0) as [pp|] eqn:Epp.
+    - destruct (Nat.eqb_spec c pp) as [->|_]; [congruence|]. rewrite andb_false_r, Ec3. reflexivity.
+    - rewrite Ec3. reflexivity. }
+  destruct (rnin_some s4 new c true (reparent new (children pn) c cn)) as [s5 E5].
+  { rewrite Es4. cbn. exact EcL. }
+  { intros pp Hpp Hne. exfalso. rewrite reparent_parent in Hpp.
+    change (children pn) with (children pn0) in Hpp. apply memb_In in Hcin. rewrite Hcin in Hpp.
+    destruct (Nat.eqb_spec c new); [congruence|]. cbn in Hpp. congruence. }
+  rewrite E5. eauto.
+Qed.
+
+(* ---- absorb_into_open_legs accepts a gate of the right shape -------------------------------------- *)
+Lemma absorb_succeeds s n nd gshape :
+  wf s -> aget n (nodes s) = Some nd ->
+  gshape = map (wdim s) (open_of nd (tens s n)) ++ map (wdim s) (open_of nd (tens s n)) ->
+  exists s', absorb_open s n gshape = Some s'.
+Proof.
+  intros W En ->. pose proof (wf_tens s n nd W En) as Et.
+  unfold absorb_open. rewrite (access_some s n nd _ En Et). rewrite nopen_reset, nvirt_reset.
+  change (skipn (nvirt nd) (axes (s_transpose (perm nd) (tens s n)))) with (open_of nd (tens s n)).
+  set (ow := open_of nd (tens s n)). set (ds := map (wdim s) ow).
+  assert (Hl : length ds = nopen nd) by (unfold ds, ow; rewrite map_length; apply open_of_length).
+  rewrite app_length, Hl. replace (nopen nd + nopen nd =? 2 * nopen nd) with true by (symmetry; apply Nat.eqb_eq; lia).
+  cbn [negb]. rewrite <- Hl, firstn_app_len, skipn_app_len.
+  rewrite (proj2 (list_eqb_eq ds ds) eq_refl). cbn [negb].
+  destruct (fresh_wires _ ds) as [s2 neww]. unfold fresh_atom. eauto.
+Qed.
+
+(* ---- the two node records of a split --------------------------------------------------------------- *)
+Lemma oltp_some' shp p leg : leg < length shp ->
+  exists n1, open_leg_to_parent (new_node shp) p leg = Some n1 /\ nvirt n1 = 1 /\ nlegs n1 = length shp.
+Proof.
+  intros H. destruct (oltp_some shp p leg H) as (q & _ & Hq & E). eexists. split; [exact E|].
+  unfold nvirt, nparents, nlegs. cbn. apply Permutation_length in Hq. rewrite seq_length in Hq. auto.
+Qed.
+
+Lemma in_enum_from_snd {A} a (l : list A) cl : In cl (enum_from a l) -> a <= snd cl < a + length l.
+Proof. intros H. apply (in_map snd) in H. rewrite enum_from_snd in H. apply in_seq in H. exact H. Qed.
+
+Lemma in_node_some i shp oid (cl : list nat) :
+  length shp = 1 + length (sp_pl i ++ cl ++ ls_open i) -> length cl = length (ls_children i) ->
+  (ls_root i = true -> ls_parent i = None) ->
+  exists in1 in2, sp_in1 i (new_node shp) oid = Some in1 /\ open_legs_to_children in1 (sp_in_children i oid) = Some in2.
+Proof.
+  intros Hlen Hcl Hr. unfold sp_in1, sp_in_children, sp_pl in *. rewrite !app_length in Hlen.
+  destruct (ls_parent i) as [ip|] eqn:Pi.
+  - destruct (ls_root i) eqn:Ri; [discriminate (Hr eq_refl)|]. cbn [length] in Hlen.
+    destruct (oltp_some' shp ip 1 ltac:(lia)) as (in1 & E1 & Hv & Hl). exists in1. rewrite E1.
+    destruct (olc_some in1 ([(oid, 1)] ++ enum_from 2 (ls_children i))) as (in2 & E2 & _); [|eauto].
+    intros x [<-|Hx]; cbn [snd]; [lia|]. apply in_enum_from_snd in Hx. lia.
+  - destruct (ls_root i) eqn:Ri; cbn [length] in Hlen.
+    + exists (new_node shp). 
+      destruct (olc_some (new_node shp) ([(oid, 0)] ++ enum_from 1 (ls_children i))) as (in2 & E2 & _); [|eauto].
+      unfold nvirt, nparents, nlegs. cbn [new_node parent children perm length]. rewrite seq_length.
+      intros x [<-|Hx]; cbn [snd]; [lia|]. apply in_enum_from_snd in Hx. lia.
+    + destruct (oltp_some' shp oid 0 ltac:(lia)) as (in1 & E1 & Hv & Hl). exists in1. rewrite E1.
+      destruct (olc_some in1 ([] ++ enum_from 1 (ls_children i))) as (in2 & E2 & _); [|eauto].
+      intros x Hx. cbn [app] in Hx. apply in_enum_from_snd in Hx. lia.
+Qed.
+
+Lemma out_node_some o i shp iid (cl : list nat) :
+  length shp = length (sp_pl o ++ cl ++ ls_open o) + 1 -> length cl = length (ls_children o) ->
+  (ls_root o = true -> ls_parent o = None) ->
+  (sp_in_above i = true -> ls_parent o = None) ->
+  (sp_in_above i = false -> ls_root o = true \/ ls_parent o <> None) ->
+  exists on1 on2, sp_out1 o (new_node shp) iid = Some on1 /\ open_legs_to_children on1 (sp_out_children o i on1 iid) = Some on2.
+Proof.
+  intros Hlen Hcl Hr Ha Hb. unfold sp_out1, sp_out_children, sp_pl in *. rewrite !app_length in Hlen.
+  destruct (ls_parent o) as [op|] eqn:Po.
+  - destruct (ls_root o) eqn:Ro; [discriminate (Hr eq_refl)|]. cbn [length] in Hlen.
+    destruct (sp_in_above i) eqn:Ab; [discriminate (Ha eq_refl)|].
+    destruct (oltp_some' shp op 0 ltac:(lia)) as (on1 & E1 & Hv & Hl). exists on1. rewrite E1.
+    destruct (olc_some on1 ([(iid, nlegs on1 - 1)] ++ enum_from 1 (ls_children o))) as (on2 & E2 & _); [|eauto].
+    intros x [<-|Hx]; cbn [snd]; [lia|]. apply in_enum_from_snd in Hx. lia.
+  - cbn [length] in Hlen. destruct (ls_root o) eqn:Ro.
+    + exists (new_node shp).
+      assert (Hv : nvirt (new_node shp) = 0) by reflexivity.
+      assert (Hl : nlegs (new_node shp) = length shp) by (unfold nlegs; cbn; apply seq_length).
+      destruct (sp_in_above i) eqn:Ab.
+      * destruct (olc_some (new_node shp) ([] ++ enum_from 1 (ls_children o))) as (on2 & E2 & _); [|eauto].
+        intros x Hx. cbn [app] in Hx. apply in_enum_from_snd in Hx. lia.
+      * destruct (olc_some (new_node shp) ([(iid, nlegs (new_node shp) - 1)] ++ enum_from 0 (ls_children o))) as (on2 & E2 & _); [|eauto].
+        intros x [<-|Hx]; cbn [snd]; [lia|]. apply in_enum_from_snd in Hx. lia.
+    + destruct (sp_in_above i) eqn:Ab; [|destruct (Hb eq_refl) as [|]; congruence].
+      set (M := nlegs (new_node shp) - 1).
+      assert (HM : M < length shp) by (unfold M, nlegs; cbn; rewrite seq_length; lia).
+      destruct (oltp_some' shp iid M HM) as (on1 & E1 & Hv & Hl). exists on1. rewrite E1.
+      destruct (olc_some on1 ([] ++ enum_from 1 (ls_children o))) as (on2 & E2 & _); [|eauto].
+      intros x Hx. cbn [app] in Hx. apply in_enum_from_snd in Hx. lia.
+Qed.
+
+(* ---- renaming in the neighbours succeeds when every named node is adjacent ----------------------- *)
+Lemma risn_some new old : forall ns l, NoDup ns ->
+  (forall x, In x ns -> exists xn, aget x l = Some xn /\ (parent xn = Some old \/ In old (children xn))) ->
+  exists l', replace_in_some_neighbours l new old ns = Some l' /\ (forall k, ~ In k ns -> aget k l' = aget k l).
+Proof.
+  induction ns as [|x t IH]; intros l Hnd H.
+  - exists l. split; [reflexivity|auto].
+  - inversion Hnd as [|? ? Hni Hnd']; subst. destruct (H x (or_introl eq_refl)) as (xn & Ex & Hadj).
+    assert (Er : exists xn', replace_neighbour xn old new = Some xn').
+    { unfold replace_neighbour. destruct (parent xn) as [p|] eqn:Ep.
+      - destruct (Nat.eqb_spec p old); [eauto|]. destruct Hadj as [Hp|Hc]; [congruence|].
+        apply memb_In in Hc. rewrite Hc. eauto.
+      - destruct Hadj as [Hp|Hc]; [discriminate|]. apply memb_In in Hc. rewrite Hc. eauto. }
+    destruct Er as [xn' Er].
+    destruct (IH (aset x xn' l) Hnd') as (l' & E & Ho).
+    { intros y Hy. destruct (H y (or_intror Hy)) as (yn & Ey & Hy'). exists yn. split; [|exact Hy'].
+      rewrite aget_aset_other; [exact Ey|]. intros ->. contradiction. }
+    exists l'. split.
+    + rewrite sp_risn_fold. cbn [fold_left]. unfold sp_risn_step at 2. rewrite Ex, Er. exact E.
+    + intros k Hk. rewrite Ho by (intros Hin; apply Hk; right; exact Hin). apply aget_aset_other. intros ->. apply Hk. left. reflexivity.
+Qed.
+
+(* ---- split_nodes accepts truthful, disjoint, exhaustive specifications ------------------------------- *)
+Lemma split_body_succeeds s1 n nd t o i oid iid kind m bd ol il :
+  find_leg_values nd o = Some ol -> find_leg_values nd i = Some il ->
+  Permutation (ol ++ il) (seq 0 (length (axes t))) ->
+  oid <> iid -> (kind = 0 -> m = Keep -> il <> []) ->
+  sp_asserts o i = true ->
+  (ls_root o = true -> ls_parent o = None) -> (ls_root i = true -> ls_parent i = None) ->
+  NoDup (find_all_neighbour_ids o ++ find_all_neighbour_ids i) ->
+  (forall x, In x (find_all_neighbour_ids o ++ find_all_neighbour_ids i) ->
+     x <> oid /\ x <> iid /\ exists xn, aget x (nodes s1) = Some xn /\ (parent xn = Some n \/ In n (children xn))) ->
+  exists s', split_body s1 n nd t o i oid iid kind m bd = Some s'.
+Proof.
+  intros Eol Eil Hperm Hne Hkeep Hass Hro Hri Hnd Hadj.
+  unfold split_body. rewrite Eol, Eil.
+  assert (Hlen : length (ol ++ il) = length (axes t)).
+  { apply Permutation_length in Hperm. rewrite seq_length in Hperm. exact Hperm. }
+  assert (Hp : is_perm_of_seq (ol ++ il) && Nat.eqb (length (ol ++ il)) (length (axes t)) = true).
+  { apply andb_true_iff. split; [apply is_perm_of_seq_spec; rewrite Hlen; exact Hperm|apply Nat.eqb_eq; exact Hlen]. }
+  rewrite Hp. cbn [negb]. destruct (Nat.eqb_spec oid iid) as [|_]; [contradiction|].
+  assert (Hk : (match kind, m, il with 0, Keep, [] => true | _, _, _ => false end) = false).
+  { destruct kind as [|k]; [|reflexivity]. destruct m; try reflexivity. destruct il; [exfalso; apply (Hkeep eq_refl eq_refl eq_refl)|reflexivity]. }
+  rewrite Hk. cbv zeta. rewrite !sp_some_match, !sp_some_match_neg.
+  unfold sp_asserts in Hass. apply andb_true_iff in Hass. destruct Hass as [Hass A4]. apply andb_true_iff in Hass. destruct Hass as [Hass A3].
+  apply andb_true_iff in Hass. destruct Hass as [A1 A2]. apply negb_true_iff in A1, A2, A3, A4.
+  rewrite A1, A2, A3, A4.
+  destruct (sp_flv_inv _ _ _ Eol) as (cO & _ & EolD & HcO). destruct (sp_flv_inv _ _ _ Eil) as (cI & _ & EilD & HcI).
+  (* the in node *)
+  match goal with |- context [sp_in1 i (new_node ?shp) oid] => set (ishp := shp) end.
+  destruct (in_node_some i ishp oid cI) as (in1 & in2 & E1 & E2); auto.
+  { unfold ishp. rewrite map_length. cbn [axes sp_it length]. rewrite permute_length, EilD. reflexivity. }
+  rewrite E1, E2.
+  (* the out node *)
+  match goal with |- context [sp_out1 o (new_node ?shp) iid] => set (oshp := shp) end.
+  destruct (out_node_some o i oshp iid cO) as (on1 & on2 & E3 & E4); auto.
+  { unfold oshp. rewrite map_length. cbn [axes sp_ot]. rewrite app_length, permute_length, EolD. reflexivity. }
+  { intros Hab. fold (sp_in_above i) in A3. destruct (sp_some (ls_parent o)) eqn:E; [|destruct (ls_parent o); [discriminate|reflexivity]].
+    rewrite Hab in A3. discriminate. }
+  { intros Hab. unfold sp_in_above in Hab. apply orb_false_iff in Hab. destruct Hab as [R P]. rewrite R, P in A4. cbn in A4.
+    destruct (ls_root o); [left; reflexivity|]. right. destruct (ls_parent o); [discriminate|discriminate]. }
+  rewrite E3, E4.
+  (* the neighbours *)
+  pose proof (NoDup_app_l _ _ Hnd) as Hndo. pose proof (NoDup_app_r _ _ Hnd) as Hndi.
+  set (l0 := aset iid in2 (aset oid on2 (nodes s1))).
+  assert (Hl0 : forall x, In x (find_all_neighbour_ids o ++ find_all_neighbour_ids i) -> aget x l0 = aget x (nodes s1)).
+  { intros x Hx. destruct (Hadj x Hx) as (X1 & X2 & _). unfold l0. rewrite !aget_aset_other by assumption. reflexivity. }
+  destruct (risn_some oid n (find_all_neighbour_ids o) l0 Hndo) as (l1 & R1 & O1).
+  { intros x Hx. destruct (Hadj x (in_or_app _ _ _ (or_introl Hx))) as (_ & _ & xn & Ex & Hx').
+    exists xn. split; [|exact Hx']. rewrite Hl0 by (apply in_or_app; left; exact Hx). exact Ex. }
+  fold l0. rewrite R1.
+  destruct (risn_some iid n (find_all_neighbour_ids i) l1 Hndi) as (l2 & R2 & O2).
+  { intros x Hx. destruct (Hadj x (in_or_app _ _ _ (or_intror Hx))) as (_ & _ & xn & Ex & Hx').
+    exists xn. split; [|exact Hx']. rewrite O1.
+    - rewrite Hl0 by (apply in_or_app; right; exact Hx). exact Ex.
+    - intros Hxo. apply NoDup_app_iff in Hnd. destruct Hnd as (_ & _ & Hd). exact (Hd x Hxo Hx). }
+  rewrite R2. eauto.
+Qed.
+
+Theorem split_succeeds s n nd0 o i oid iid kind m rb ol il :
+  wf s -> aget n (nodes s) = Some nd0 ->
+  find_leg_values nd0 o = Some ol -> find_leg_values nd0 i = Some il ->
+  Permutation (ol ++ il) (seq 0 (nlegs nd0)) ->
+  oid <> iid -> (kind = 0 -> m = Keep -> il <> []) ->
+  sp_asserts o i = true ->
+  leg_ok nd0 o -> leg_ok nd0 i -> ids_ok s n oid iid ->
+  NoDup (find_all_neighbour_ids o ++ find_all_neighbour_ids i) ->
+  exists s', split_nodes s n o i oid iid kind m rb = Some s'.
+Proof.
+  intros W En Eol Eil Hperm Hne Hkeep Hass LO LI Hids Hnd.
+  pose proof (wf_tens s n nd0 W En) as Et.
+  rewrite split_nodes_body. rewrite (access_some s n nd0 _ En Et).
+  rewrite (find_leg_values_ext (reset_permutation nd0) nd0 o eq_refl eq_refl), Eol.
+  rewrite (find_leg_values_ext (reset_permutation nd0) nd0 i eq_refl eq_refl), Eil.
+  pose proof (wf_tstruct s W) as T.
+  assert (Hroot_par : forall sp, leg_ok nd0 sp -> ls_root sp = true -> ls_parent sp = None).
+  { intros sp (L1 & L2 & _) Hr. destruct (ls_parent sp) as [q|] eqn:E; [|reflexivity]. rewrite (L1 q eq_refl) in L2. discriminate (L2 Hr). }
+  assert (F1 : find_leg_values (reset_permutation nd0) o = Some ol) by (rewrite <- Eol; apply find_leg_values_ext; reflexivity).
+  assert (F2 : find_leg_values (reset_permutation nd0) i = Some il) by (rewrite <- Eil; apply find_leg_values_ext; reflexivity).
+  assert (F3 : Permutation (ol ++ il) (seq 0 (length (axes (s_transpose (perm nd0) (tens s n)))))).
+  { cbn [axes s_transpose]. rewrite permute_length. exact Hperm. }
+  apply (split_body_succeeds _ n _ _ o i oid iid kind m _ ol il F1 F2 F3 Hne Hkeep Hass (Hroot_par o LO) (Hroot_par i LI) Hnd).
+  - intros x Hx.
+    assert (Hxn : In x (neighbouring_nodes nd0)).
+    { apply in_neighbouring. apply in_app_or in Hx. destruct Hx as [Hx|Hx]; apply sp_In_nbrs in Hx.
+      - destruct LO as (L1 & _ & L3 & _). destruct Hx as [Hx|Hx]; [left; apply L1; exact Hx|right; apply L3; exact Hx].
+      - destruct LI as (L1 & _ & L3 & _). destruct Hx as [Hx|Hx]; [left; apply L1; exact Hx|right; apply L3; exact Hx]. }
+    destruct (ts_neighbour_sym _ n nd0 x T En Hxn) as (xn & Ex & Hnx & Hne').
+    assert (Hxk : In x (akeys (nodes s))) by (eapply aget_Some_keys; eauto).
+    destruct Hids as [[->|Ho] [->|Hi]]; (split; [congruence|split; [congruence|]]);
+      exists xn; (split; [cbn; rewrite aget_aset_other by exact Hne'; exact Ex|apply in_neighbouring; exact Hnx]).
+Qed.
+
+(* ---- the recorded specifications are disjoint and pass the asserts of split_nodes ------------------ *)
+Lemma lbc_specs_ok a na b nb u v : pair_ok a na b nb -> lbc_nodes a na b nb = Some (u, v) ->
+  sp_asserts u v = true /\ NoDup (find_all_neighbour_ids u ++ find_all_neighbour_ids v).
+Proof.
+  intros Hok Hl. destruct (lbc_names _ _ _ _ _ _ Hok Hl) as (_ & _ & Hcase).
+  unfold sp_asserts, find_all_neighbour_ids.
+  destruct Hcase as [(Hin & Hup & Huc & Hur & Hvp & Hvc & Hvr)|(Hin & Hup & Huc & Hur & Hvp & Hvc & Hvr)];
+    rewrite Hup, Huc, Hur, Hvp, Hvc, Hvr.
+  - assert (Hpa : parent na <> Some b) by (destruct (po_adj _ _ _ _ Hok) as [(_ & _ & _ & ?)|(_ & ? & Hx & _)]; [assumption|contradiction]).
+    split; [unfold is_root; destruct (parent na); reflexivity|]. cbn [app].
+    destruct (InvContract.remove_first_NoDup b (children na) (po_nda _ _ _ _ Hok)) as [Hr1 Hr2].
+    apply NoDup_app_iff. split; [|split; [apply (po_ndb _ _ _ _ Hok)|]].
+    + destruct (parent na) as [q|] eqn:Pa; [|exact Hr1]. cbn [app]. constructor; [|exact Hr1].
+      intros Hq. apply remove_first_In in Hq. apply (proj1 (po_para _ _ _ _ Hok q Pa) Hq).
+    + intros x Hx Hy. apply in_app_or in Hx. destruct Hx as [Hx|Hx].
+      * destruct (parent na) as [q|] eqn:Pa; [|destruct Hx]. destruct Hx as [<-|[]].
+        apply (proj2 (po_para _ _ _ _ Hok q Pa)); [congruence|exact Hy].
+      * apply remove_first_In in Hx. apply (po_disj _ _ _ _ Hok x Hx Hy).
+  - assert (Hpb : parent nb <> Some a) by (destruct (po_adj _ _ _ _ Hok) as [(Hx & _)|(_ & _ & _ & ?)]; [|assumption];
+      destruct (po_adj _ _ _ _ Hok) as [(_ & _ & Hy & _)|(_ & _ & Hy & _)]; contradiction).
+    split; [unfold is_root; destruct (parent nb); reflexivity|]. cbn [app].
+    destruct (InvContract.remove_first_NoDup a (children nb) (po_ndb _ _ _ _ Hok)) as [Hr1 Hr2].
+    apply NoDup_app_iff. split; [apply (po_nda _ _ _ _ Hok)|]. split.
+    + destruct (parent nb) as [q|] eqn:Pb; [|exact Hr1]. cbn [app]. constructor; [|exact Hr1].
+      intros Hq. apply remove_first_In in Hq. apply (proj1 (po_parb _ _ _ _ Hok q Pb) Hq).
+    + intros x Hx Hy. apply in_app_or in Hy. destruct Hy as [Hy|Hy].
+      * destruct (parent nb) as [q|] eqn:Pb; [|destruct Hy]. destruct Hy as [<-|[]].
+        apply (proj2 (po_parb _ _ _ _ Hok q Pb)); [congruence|exact Hx].
+      * apply remove_first_In in Hy. apply (po_disj _ _ _ _ Hok x Hx Hy).
+Qed.
+
+(* ---- A1, acceptance: on two neighbouring nodes of a well-formed store, with a fresh temporary
+   identifier and a gate tensor whose shape is (open dims of node1 ++ node2) twice, no sub-operation of
+   the two-site gate raises ------------------------------------------------------------------------- *)
+Theorem two_site_gate_succeeds_wf contr s a b g na nb :
+  wf s -> aget a (nodes s) = Some na -> aget b (nodes s) = Some nb -> In b (neighbouring_nodes na) ->
+  aget contr (nodes s) = None ->
+  t_shape g = map (wdim s) (open_of na (tens s a) ++ open_of nb (tens s b)) ++
+              map (wdim s) (open_of na (tens s a) ++ open_of nb (tens s b)) ->
+  exists s1 s2 s3, two_site_stages contr s a b g = Some (s1, s2, s3).
+Proof.
+  intros W Ea Eb Hnbr Hc Hshape.
+  pose proof (pair_ok_wf s a na b nb W Ea Eb Hnbr) as Hok.
+  assert (Hnew : ~ In contr (akeys (nodes s))) by (apply aget_None; exact Hc).
+  assert (Hnew' : contr = a \/ contr = b \/ ~ In contr (akeys (nodes s))) by tauto.
+  assert (Hca : contr <> a) by (intros ->; congruence).
+  assert (Hcb : contr <> b) by (intros ->; congruence).
+  assert (Hl : exists u v, lbc_nodes a na b nb = Some (u, v)).
+  { unfold lbc_nodes. destruct (po_adj _ _ _ _ Hok) as [(Hin & _)|(Hin & _)]; apply memb_In in Hin.
+    - destruct (memb a (children nb)); [eauto|]. rewrite Hin. eauto.
+    - rewrite Hin. eauto. }
+  destruct Hl as (u & v & Hl).
+  destruct (contract_succeeds s a b contr na nb W Ea Eb Hnbr Hnew) as [s1 Hcn].
+  pose proof (contract_preserves_wf _ _ _ _ _ W Hcn Hnew') as W1.
+  destruct (contract_open_rule _ _ _ _ _ na nb W Hcn Hnew' Ea Eb) as (nn & Enn & Hopen & _).
+  destruct (contract_inv2 _ _ _ _ _ W Hcn Hnew') as (_ & _ & _ & _ & _ & _ & _ & _ & _ & _ & _ & _ & _ & _ & _ & _ & Ndm & _).
+  assert (Hwd : forall w, wdim s1 w = wdim s w) by (intros w; unfold wdim; rewrite Ndm; reflexivity).
+  destruct (absorb_succeeds s1 contr nn (t_shape g) W1 Enn) as [s2 Hab].
+  { rewrite Hopen, Hshape. f_equal; apply map_ext; intros w; symmetry; apply Hwd. }
+  destruct (gate_half _ _ _ _ _ _ _ _ _ _ _ W Ea Eb Hok Hnew Hl Hcn Hab) as (_ & W2 & Hids & nd & End & L1 & L2 & Hnv & Hno).
+  assert (Hlbc : legs_before_combination s a b = Some (u, v)) by (unfold legs_before_combination; rewrite Ea, Eb; exact Hl).
+  destruct (contract_specs_partition s a b contr s1 na nb u v Ea Eb Hok Hlbc Hcn) as (nn' & lu & lv & Enn' & Flu & Flv & Hperm).
+  rewrite Enn in Enn'. injection Enn' as <-.
+  destruct (absorb_open_inv _ _ _ _ Hab) as (s1a & nd1 & t1 & Hacc & _ & _ & _ & En2 & _).
+  destruct (access_result _ _ _ _ _ Hacc) as (B1 & _ & _ & _ & _ & _ & _ & _ & (nd0 & B9 & B10 & B11)).
+  rewrite Enn in B9. injection B9 as <-. rewrite En2, B1 in End. injection End as <-.
+  destruct (lbc_specs_ok _ _ _ _ _ _ Hok Hl) as [Hass Hnd].
+  assert (Hnl : nlegs nd1 = nlegs na + nlegs nb - 2).
+  { pose proof (ni_virt _ _ _ (wf_node s2 W2 contr nd1 ltac:(rewrite En2; exact B1))) as Hv1.
+    pose proof (po_va _ _ _ _ Hok). pose proof (po_vb _ _ _ _ Hok).
+    assert (1 <= nvirt na /\ 1 <= nvirt nb).
+    { destruct (po_adj _ _ _ _ Hok) as [(Hin & Hp & _)|(Hin & Hp & _)]; apply TrotterProofs.remove_first_length in Hin;
+        unfold nvirt, nparents; rewrite Hp; split; destruct (parent na), (parent nb); nlia. }
+    unfold nopen in Hno. nlia. }
+  destruct (split_succeeds s2 contr nd1 u v a b (t_kind g) Reduced (t_bond g) lu lv) as [s3 Hs]; auto.
+  - rewrite En2. exact B1.
+  - rewrite <- Flu. apply find_leg_values_ext; assumption.
+  - rewrite <- Flv. apply find_leg_values_ext; assumption.
+  - rewrite Hnl. exact Hperm.
+  - apply (po_ne _ _ _ _ Hok).
+  - intros _ Hm. discriminate Hm.
+  - exists s1, s2, s3. unfold two_site_stages. rewrite Hlbc, Hcn, Hab, Hs. reflexivity.
+Qed.
+
+(* ==== acceptance of whole steps: the open dimensions of every node are kept ============================ *)
+Definition odims (s : store) (k : id) : list nat :=
+  match aget k (nodes s) with Some nk => map (wdim s) (open_of nk (tens s k)) | None => [] end.
+
+(* a gate fits a store: its identifiers are a node, or two neighbouring nodes, and its tensor has the
+   open dimensions of the node(s) twice (outputs, inputs) *)
+Definition gate_fits (s : store) (g : tgate) : Prop :=
+  match t_ids g with
+  | [] => True
+  | [a] => (exists na, aget a (nodes s) = Some na) /\ t_shape g = odims s a ++ odims s a
+  | [a; b] => (exists na, aget a (nodes s) = Some na /\ In b (neighbouring_nodes na)) /\
+              t_shape g = (odims s a ++ odims s b) ++ (odims s a ++ odims s b)
+  | _ => False
+  end.
+
+Lemma open_lt s k nk w : wf s -> aget k (nodes s) = Some nk -> In w (open_of nk (tens s k)) -> w < next_wire s.
+Proof.
+  intros W E Hw. apply (wf_wires s W k (tens s k) w (wf_tens s k nk W E)).
+  unfold open_of in Hw. assert (Hl : In w (laxes nk (tens s k))).
+  { rewrite <- (firstn_skipn (nvirt nk) (laxes nk (tens s k))). apply in_or_app. right. exact Hw. }
+  unfold laxes in Hl. apply (permute_incl 0 (perm nk) (axes (tens s k))); [|exact Hl].
+  pose proof (wf_axes_length s k nk W E) as Hal. pose proof (wf_node_wf s k nk W E) as [Hp Hq].
+  intros i Hi. pose proof (perm_bound _ _ Hp i Hi) as Hb. pose proof (nlegs_shape nk (conj Hp Hq)). nlia.
+Qed.
+
+Lemma wdim_old s s' extra w : wf s -> dims s' = dims s ++ extra ->
+  (forall x, In x (akeys extra) -> next_wire s <= x) -> w < next_wire s -> wdim s' w = wdim s w.
+Proof.
+  intros W Hd Hx Hw. unfold wdim. rewrite Hd, aget_app. unfold wire in *. destruct (aget w (dims s)) as [v|]; [reflexivity|].
+  destruct (aget w extra) as [v|] eqn:E; [|reflexivity]. apply aget_Some_keys in E. apply Hx in E. lia.
+Qed.
+
+Lemma odims_kept s s' extra k : wf s -> dims s' = dims s ++ extra ->
+  (forall x, In x (akeys extra) -> next_wire s <= x) ->
+  aget k (nodes s') = aget k (nodes s) -> aget k (tensors s') = aget k (tensors s) -> odims s' k = odims s k.
+Proof.
+  intros W Hd Hx En Et. unfold odims. rewrite En. destruct (aget k (nodes s)) as [nk|] eqn:E; [|reflexivity].
+  assert (Ht : tens s' k = tens s k) by (unfold tens; rewrite Et; reflexivity). rewrite Ht.
+  apply map_ext_in. intros w Hw. apply (wdim_old s s' extra w W Hd Hx). apply (open_lt s k nk w W E Hw).
+Qed.
+
+Lemma odims_length s k nk : aget k (nodes s) = Some nk -> length (odims s k) = nopen nk.
+Proof. intros E. unfold odims. rewrite E, map_length. apply open_of_length. Qed.
+
+Lemma app_eq_split {A} (x1 y1 x2 y2 : list A) : x1 ++ y1 = x2 ++ y2 -> length x1 = length x2 -> x1 = x2 /\ y1 = y2.
+Proof.
+  revert x2. induction x1 as [|a t IH]; intros [|b t2] H Hl; cbn in *; try discriminate; [auto|].
+  injection H as -> H. destruct (IH t2 H ltac:(lia)) as [-> ->]. auto.
+Qed.
+
+(* the dimensions of fresh wires appended to the table *)
+Lemma wdim_fresh s s' ds extra : wf s -> dims s' = (dims s ++ combine (seq (next_wire s) (length ds)) ds) ++ extra ->
+  (forall x, In x (akeys extra) -> next_wire s + length ds <= x) ->
+  map (wdim s') (seq (next_wire s) (length ds)) = ds.
+Proof.
+  intros W Hd Hx.
+  destruct (fresh_wires s ds) as [s2 ws] eqn:Hfw.
+  destruct (InvBuild.fresh_wires_spec _ _ _ _ Hfw) as (Ews & F2 & _).
+  transitivity (map (wdim s2) ws); [|apply (fresh_wires_wdim_new _ _ _ _ Hfw (wf_dims s W))].
+  subst ws. apply map_ext_in. intros w Hw. apply in_seq in Hw. unfold wdim. unfold wire in *. rewrite Hd, <- F2, aget_app.
+  destruct (aget w (dims s2)) as [v|]; [reflexivity|].
+  destruct (aget w extra) as [v|] eqn:E; [|reflexivity]. apply aget_Some_keys in E. apply Hx in E. lia.
+Qed.
+
+(* ---- the two-site gate keeps the open dimensions of every node ------------------------------------ *)
+Lemma two_site_gate_odims contr s a b g s1 s2 s3 na nb :
+  wf s -> aget a (nodes s) = Some na -> aget b (nodes s) = Some nb -> aget contr (nodes s) = None ->
+  t_shape g = (odims s a ++ odims s b) ++ (odims s a ++ odims s b) ->
+  two_site_stages contr s a b g = Some (s1, s2, s3) ->
+  forall k, odims s3 k = odims s k.
+Proof.
+  intros W Ea Eb Hc Hshape H k.
+  destruct (two_site_gate_same_tree_wf _ _ _ _ _ _ _ _ _ W Ea Hc H) as (_ & _ & _ & _ & _ & _ & Hoth).
+  destruct (two_site_gate_diagram_wf _ _ _ _ _ _ _ _ _ W Ea Hc H)
+    as (nb' & u & v & p & c & pn0 & cn0 & pt & ct & ax & nt & nn & lu & lv & Eb' & _ & _ & _ & _ & _ & _ & _ & _ & _ & _ & _ & _ & _ & _ & D).
+  cbv zeta in D. destruct D as (_ & _ & _ & _ & _ & _ & Nw3 & (bd & Dm) & na' & nb'' & Ea3 & Eb3 & Oa & Ob).
+  rewrite Eb in Eb'. injection Eb' as <-.
+  set (K := nopen na + nopen nb) in *. set (nw := next_wire s) in *.
+  pose proof (odims_length s a na Ea) as La. pose proof (odims_length s b nb Eb) as Lb.
+  assert (Hds : firstn K (t_shape g) = odims s a ++ odims s b).
+  { rewrite Hshape. replace K with (length (odims s a ++ odims s b)) by (rewrite app_length, La, Lb; reflexivity).
+    apply firstn_app_len. }
+  rewrite Hds in Dm.
+  assert (HK : length (odims s a ++ odims s b) = K) by (rewrite app_length, La, Lb; reflexivity).
+  assert (Hfresh : map (wdim s3) (seq nw K) = odims s a ++ odims s b).
+  { rewrite <- HK. apply (wdim_fresh s s3 _ [(nw + K, bd)] W).
+    - rewrite HK. exact Dm.
+    - intros x [<-|[]]. rewrite HK. cbn. lia. }
+  unfold K in Hfresh. rewrite seq_app, map_app in Hfresh.
+  apply app_eq_split in Hfresh; [|rewrite map_length, seq_length, La; reflexivity]. destruct Hfresh as [Fa Fb].
+  destruct (Nat.eq_dec k a) as [->|Ka]; [|destruct (Nat.eq_dec k b) as [->|Kb]].
+  - unfold odims at 1. rewrite Ea3, Oa. exact Fa.
+  - unfold odims at 1. rewrite Eb3, Ob. exact Fb.
+  - destruct (Hoth k Ka Kb) as [En Et].
+    apply (odims_kept s s3 (combine (seq nw K) (odims s a ++ odims s b) ++ [(nw + K, bd)]) k W); auto.
+    + rewrite Dm, <- app_assoc. reflexivity.
+    + intros x Hx. rewrite akeys_app in Hx. apply in_app_or in Hx. destruct Hx as [Hx|Hx].
+      * apply ib_akeys_combine in Hx. apply in_seq in Hx. lia.
+      * destruct Hx as [<-|[]]. cbn. lia.
+Qed.
+
+(* ---- the single-site gate -------------------------------------------------------------------------- *)
+Lemma one_site_gate_odims s a gshape s' na :
+  wf s -> aget a (nodes s) = Some na -> gshape = odims s a ++ odims s a ->
+  absorb_open s a gshape = Some s' -> forall k, odims s' k = odims s k.
+Proof.
+  intros W Ea Hshape H k.
+  destruct (absorb_open_inv _ _ _ _ H) as (s1 & nd & t & Hacc & Hlen & Hsq & Hdim & En' & Er' & Et' & Ed' & Ew' & _).
+  destruct (access_inv _ _ _ _ _ Hacc) as (na0 & t0 & X1 & X2 & X3 & X4 & X5). rewrite Ea in X1. injection X1 as <-.
+  destruct (sp_access_next _ _ _ _ _ Hacc) as (_ & Nw & _ & Ndm & _).
+  pose proof (odims_length s a na Ea) as La.
+  assert (Hno : nopen nd = nopen na) by (rewrite X3; apply nopen_reset).
+  assert (Hds : firstn (nopen nd) gshape = odims s a).
+  { rewrite Hshape, Hno, <- La. apply firstn_app_len. }
+  rewrite Hds, Ndm, Nw, Hno in Ed'.
+  destruct (Nat.eq_dec k a) as [->|Ka].
+  - unfold odims at 1. rewrite En', X5. cbn [nodes upd_tensors upd_nodes]. rewrite aget_aset_same.
+    assert (Ht : tens s' a = ab_tensor s1 nd t) by (apply tens_aget; rewrite Et'; apply aget_aset_same). rewrite Ht.
+    pose proof (ni_virt _ _ _ (wf_node s W a na Ea)) as Hv.
+    assert (Hlt : length (axes t) = nlegs na) by (rewrite X4; cbn; apply permute_length).
+    assert (Hop : open_of nd (ab_tensor s1 nd t) = seq (next_wire s) (nopen na)).
+    { unfold open_of, laxes, ab_tensor. cbn [axes]. rewrite Hno, Nw.
+      assert (Hvn : nvirt nd = nvirt na) by (rewrite X3; reflexivity). rewrite Hvn.
+      assert (Hpn : perm nd = seq 0 (nlegs na)) by (rewrite X3; reflexivity). rewrite Hpn.
+      assert (Hfl : length (firstn (nvirt na) (axes t)) = nvirt na) by (rewrite firstn_length; nlia).
+      replace (nlegs na) with (length (firstn (nvirt na) (axes t) ++ seq (next_wire s) (nopen na)))
+        by (rewrite app_length, Hfl, seq_length; unfold nopen; nlia).
+      rewrite permute_seq. rewrite <- Hfl at 1. apply skipn_app_len. }
+    rewrite Hop. rewrite <- La. apply (wdim_fresh s s' (odims s a) [] W).
+    + rewrite app_nil_r, La. exact Ed'.
+    + intros x [].
+  - apply (odims_kept s s' (combine (seq (next_wire s) (nopen na)) (odims s a)) k W Ed').
+    + intros x Hx. apply ib_akeys_combine in Hx. apply in_seq in Hx. lia.
+    + rewrite En', X5. cbn. apply aget_aset_other. exact Ka.
+    + rewrite Et', aget_aset_other by exact Ka. rewrite X5. cbn. apply aget_aset_other. exact Ka.
+Qed.
+
+(* ---- every fitting gate is accepted; the store stays well-formed, the tree and the open dimensions
+   stay the same ---------------------------------------------------------------------------------- *)
+Theorem apply_gate_accepts contr s g :
+  wf s -> aget contr (nodes s) = None -> gate_fits s g ->
+  exists s', apply_gate contr s g = Some s' /\ wf s' /\ aget contr (nodes s') = None /\
+             same_tree (nodes s) (nodes s') /\ root s' = root s /\ forall k, odims s' k = odims s k.
+Proof.
+  intros W Hc Hfit.
+  assert (Hgen : forall s', apply_gate contr s g = Some s' -> (forall k, odims s' k = odims s k) ->
+            exists s', apply_gate contr s g = Some s' /\ wf s' /\ aget contr (nodes s') = None /\
+             same_tree (nodes s) (nodes s') /\ root s' = root s /\ forall k, odims s' k = odims s k).
+  { intros s' E Ho. exists s'. destruct (apply_gate_preserves_wf _ _ _ _ W Hc E) as (X1 & X2 & X3 & X4).
+    split; [exact E|]. split; [exact X1|]. split; [exact X2|]. split; [exact X3|]. split; [exact X4|exact Ho]. }
+  unfold gate_fits in Hfit. unfold apply_gate, apply_gate_stages in *.
+  destruct (t_ids g) as [|a [|b [|x r]]] eqn:Eids; [| | |contradiction].
+  - apply (Hgen s); [reflexivity|auto].
+  - destruct Hfit as [[na Ea] Hshape].
+    destruct (absorb_succeeds s a na (t_shape g) W Ea) as [s' E].
+    { unfold odims in Hshape. rewrite Ea in Hshape. exact Hshape. }
+    apply (Hgen s'); [rewrite E; reflexivity|]. apply (one_site_gate_odims s a (t_shape g) s' na W Ea Hshape E).
+  - destruct Hfit as [(na & Ea & Hnbr) Hshape].
+    destruct (ts_neighbour_sym _ a na b (wf_tstruct s W) Ea Hnbr) as (nb & Eb & _).
+    destruct (two_site_gate_succeeds_wf contr s a b g na nb W Ea Eb Hnbr Hc) as (s1 & s2 & s3 & E).
+    { unfold odims in Hshape. rewrite Ea, Eb in Hshape. rewrite !map_app. exact Hshape. }
+    apply (Hgen s3); [rewrite E; reflexivity|]. apply (two_site_gate_odims contr s a b g s1 s2 s3 na nb W Ea Eb Hc Hshape E).
+Qed.
+
+Lemma gate_fits_transfer s s' g : same_tree (nodes s) (nodes s') -> (forall k, odims s' k = odims s k) ->
+  gate_fits s g -> gate_fits s' g.
+Proof.
+  intros St Ho. unfold gate_fits. destruct (t_ids g) as [|a [|b [|x r]]]; auto.
+  - intros [[na Ea] Hs]. split; [|rewrite !Ho; exact Hs].
+    destruct (same_tree_some _ _ _ _ St Ea) as (na' & Ea' & _). eauto.
+  - intros [(na & Ea & Hn) Hs]. split; [|rewrite !Ho; exact Hs].
+    destruct (same_tree_some _ _ _ _ St Ea) as (na' & Ea' & _). exists na'. split; [exact Ea'|].
+    apply (Permutation_in _ (same_tree_neighbours _ _ _ _ _ St Ea Ea') Hn).
+Qed.
+
+Theorem tebd_step_accepts contr : forall gs s,
+  wf s -> aget contr (nodes s) = None -> Forall (gate_fits s) gs ->
+  exists s', tebd_step contr s gs = Some s' /\ wf s' /\ aget contr (nodes s') = None /\
+             same_tree (nodes s) (nodes s') /\ root s' = root s /\ forall k, odims s' k = odims s k.
+Proof.
+  induction gs as [|g gs IH]; intros s W Hc Hf.
+  - exists s. cbn. split; [reflexivity|]. split; [exact W|]. split; [exact Hc|]. split; [apply same_tree_refl|auto].
+  - inversion Hf as [|? ? Hg Hgs]; subst.
+    destruct (apply_gate_accepts contr s g W Hc Hg) as (s1 & E1 & W1 & Hc1 & St1 & Hr1 & Ho1).
+    destruct (IH s1 W1 Hc1) as (s' & E' & W' & Hc' & St' & Hr' & Ho').
+    { eapply Forall_impl; [|exact Hgs]. intros g'. apply (gate_fits_transfer s s1 g' St1 Ho1). }
+    exists s'. cbn [tebd_step]. rewrite E1. split; [exact E'|]. split; [exact W'|]. split; [exact Hc'|].
+    split; [eapply same_tree_trans; eauto|]. split; [congruence|]. intros k. rewrite Ho'. apply Ho1.
+Qed.
+
+Theorem tebd_step_accepts_wfb contr gs s :
+  wfb s = true -> aget contr (nodes s) = None -> Forall (gate_fits s) gs ->
+  exists s', tebd_step contr s gs = Some s' /\ wfb s' = true /\ aget contr (nodes s') = None /\
+             same_tree (nodes s) (nodes s') /\ root s' = root s /\ forall k, odims s' k = odims s k.
+Proof.
+  intros W Hc Hf. apply wfb_iff in W. destruct (tebd_step_accepts contr gs s W Hc Hf) as (s' & E & W' & X).
+  exists s'. split; [exact E|]. split; [apply wfb_iff; exact W'|exact X].
+Qed.
+
+(* ==== the statements with the executable invariant ================================================== *)
+(* A1, total form: acceptance and restoration together *)
+Theorem two_site_gate_total contr s a b g na nb :
+  wfb s = true -> aget a (nodes s) = Some na -> aget b (nodes s) = Some nb -> In b (neighbouring_nodes na) ->
+  aget contr (nodes s) = None ->
+  t_shape g = map (wdim s) (open_of na (tens s a) ++ open_of nb (tens s b)) ++
+              map (wdim s) (open_of na (tens s a) ++ open_of nb (tens s b)) ->
+  exists s1 s2 s3, two_site_stages contr s a b g = Some (s1, s2, s3) /\
+    wfb s3 = true /\ same_tree (nodes s) (nodes s3) /\ root s3 = root s /\
+    aget contr (nodes s3) = None /\ aget contr (tensors s3) = None /\
+    (forall k, k <> a -> k <> b -> aget k (nodes s3) = aget k (nodes s) /\ aget k (tensors s3) = aget k (tensors s)).
+Proof.
+  intros W Ea Eb Hnbr Hc Hshape. pose proof (proj1 (wfb_iff s) W) as W'.
+  destruct (two_site_gate_succeeds_wf contr s a b g na nb W' Ea Eb Hnbr Hc Hshape) as (s1 & s2 & s3 & H).
+  exists s1, s2, s3. split; [exact H|].
+  destruct (two_site_gate_same_tree contr s a b g s1 s2 s3 na W Ea Hc H) as (_ & X). exact X.
+Qed.
+
+Theorem two_site_gate_succeeds contr s a b g na nb :
+  wfb s = true -> aget a (nodes s) = Some na -> aget b (nodes s) = Some nb -> In b (neighbouring_nodes na) ->
+  aget contr (nodes s) = None ->
+  t_shape g = map (wdim s) (open_of na (tens s a) ++ open_of nb (tens s b)) ++
+              map (wdim s) (open_of na (tens s a) ++ open_of nb (tens s b)) ->
+  exists s1 s2 s3, two_site_stages contr s a b g = Some (s1, s2, s3).
+Proof. intros W. apply two_site_gate_succeeds_wf. apply wfb_iff. exact W. Qed.
+
+(* the single-site gate *)
+Theorem one_site_gate_succeeds s a gshape na :
+  wfb s = true -> aget a (nodes s) = Some na ->
+  gshape = map (wdim s) (open_of na (tens s a)) ++ map (wdim s) (open_of na (tens s a)) ->
+  exists s', absorb_open s a gshape = Some s' /\ wfb s' = true.
+Proof.
+  intros W Ea Hs. apply wfb_iff in W. destruct (absorb_succeeds s a na gshape W Ea Hs) as [s' E].
+  exists s'. split; [exact E|]. apply wfb_iff. apply (absorb_preserves_wf _ _ _ _ W E).
+Qed.
+
+(* the three sub-operations, acceptance and invariant together *)
+Theorem contract_accepts s a b new na nb :
+  wfb s = true -> aget a (nodes s) = Some na -> aget b (nodes s) = Some nb -> In b (neighbouring_nodes na) ->
+  ~ In new (akeys (nodes s)) ->
+  exists s', contract_nodes s a b new = Some s' /\ wfb s' = true.
+Proof.
+  intros W Ea Eb Hn Hnew. apply wfb_iff in W. destruct (contract_succeeds s a b new na nb W Ea Eb Hn Hnew) as [s' E].
+  exists s'. split; [exact E|]. apply wfb_iff. apply (contract_preserves_wf _ _ _ _ _ W E). tauto.
+Qed.
+
+Theorem absorb_preserves_wfb s n gshape s' : wfb s = true -> absorb_open s n gshape = Some s' -> wfb s' = true.
+Proof. intros W H. apply wfb_iff. apply wfb_iff in W. apply (absorb_preserves_wf _ _ _ _ W H). Qed.
+
+Theorem split_accepts s n nd0 o i oid iid kind m rb ol il :
+  wfb s = true -> aget n (nodes s) = Some nd0 ->
+  find_leg_values nd0 o = Some ol -> find_leg_values nd0 i = Some il ->
+  Permutation (ol ++ il) (seq 0 (nlegs nd0)) ->
+  oid <> iid -> (kind = 0 -> m = Keep -> il <> []) ->
+  sp_asserts o i = true ->
+  leg_ok nd0 o -> leg_ok nd0 i -> ids_ok s n oid iid ->
+  NoDup (find_all_neighbour_ids o ++ find_all_neighbour_ids i) ->
+  exists s', split_nodes s n o i oid iid kind m rb = Some s' /\ wfb s' = true.
+Proof.
+  intros W En Eol Eil Hp Hne Hk Ha LO LI Hids Hnd. apply wfb_iff in W.
+  destruct (split_succeeds s n nd0 o i oid iid kind m rb ol il W En Eol Eil Hp Hne Hk Ha LO LI Hids Hnd) as [s' E].
+  exists s'. split; [exact E|]. apply wfb_iff. apply (split_preserves_wf _ _ _ _ _ _ _ _ _ _ W E); [|exact Hids].
+  intros nd E'. rewrite En in E'. injection E' as <-. auto.
+Qed.
+
+(* A2 with the executable invariant *)
+Theorem two_site_gate_diagram contr s a b g s1 s2 s3 na :
+  wfb s = true -> aget a (nodes s) = Some na -> aget contr (nodes s) = None ->
+  two_site_stages contr s a b g = Some (s1, s2, s3) ->
+  exists nb u v p c pn0 cn0 pt ct ax nt nn lu lv,
+    aget b (nodes s) = Some nb /\ lbc_nodes a na b nb = Some (u, v) /\
+    ((p = a /\ c = b) \/ (p = b /\ c = a)) /\
+    aget p (nodes s) = Some pn0 /\ aget c (nodes s) = Some cn0 /\ parent cn0 = Some p /\
+    logical s p = Some pt /\ logical s c = Some ct /\ neighbour_index pn0 c = Some ax /\
+    s_tensordot pt ct ax 0 = Some nt /\
+    aget contr (nodes s1) = Some nn /\ aget contr (tensors s1) = Some nt /\
+    find_leg_values nn u = Some lu /\ find_leg_values nn v = Some lv /\
+    Permutation (lu ++ lv) (seq 0 (nlegs nn)) /\
+    let ga := next_atom s in
+    let opa := open_of na (tens s a) in
+    let opb := open_of nb (tens s b) in
+    let outw := seq (next_wire s) (nopen na + nopen nb) in
+    let bw := next_wire s + (nopen na + nopen nb) in
+    let G := gate_folded nn nt ga outw in
+    skipn (nvirt nn) (laxes nn nt) = opa ++ opb /\
+    atab s3 = atab s ++ [(ga, outw ++ opa ++ opb); (S ga, permute 0 lu (axes G) ++ [bw]); (S (S ga), bw :: permute 0 lv (axes G))] /\
+    defs s3 = defs s ++ [{| kq := S ga; kr := S (S ga); kbond := bw; kinput := s_transpose (lu ++ lv) G;
+                            kkind := t_kind g; kmode := match t_kind g with 0 => Some Reduced | _ => None end |}] /\
+    aget a (tensors s3) = Some {| axes := permute 0 lu (axes G) ++ [bw]; atoms := [S ga]; bnd := [] |} /\
+    aget b (tensors s3) = Some {| axes := bw :: permute 0 lv (axes G); atoms := [S (S ga)]; bnd := [] |} /\
+    next_atom s3 = S (S (S ga)) /\ next_wire s3 = S bw /\
+    (exists bd, dims s3 = (dims s ++ combine outw (firstn (nopen na + nopen nb) (t_shape g))) ++ [(bw, bd)]) /\
+    exists na' nb', aget a (nodes s3) = Some na' /\ aget b (nodes s3) = Some nb' /\
+      open_of na' (tens s3 a) = seq (next_wire s) (nopen na) /\
+      open_of nb' (tens s3 b) = seq (next_wire s + nopen na) (nopen nb).
+Proof. intros W. apply two_site_gate_diagram_wf. apply wfb_iff. exact W. Qed.
+
+(* non-vacuity: the chain 0 - 1 - 2 of Props/C08.v *)
+Example gate_tree_example :
+  let s := fst (run empty_store [AddRoot 0 [2; 3]; AddChild 1 [3; 2; 2] 0 0 1; AddChild 2 [2; 2] 1 1 1]) in
+  wfb s = true /\ aget 99 (nodes s) = None /\
+  match aget 1 (nodes s), aget 0 (nodes s) with
+  | Some na, Some nb =>
+      memb 0 (neighbouring_nodes na) = true /\
+      map (wdim s) (open_of na (tens s 1) ++ open_of nb (tens s 0)) = [2; 2]
+  | _, _ => False
+  end /\
+  match two_site_stages 99 s 1 0 {| t_ids := [1; 0]; t_shape := [2; 2; 2; 2]; t_kind := 1; t_bond := 0 |} with
+  | Some (_, _, s3) => wfb s3 = true /\ map fst (nodes s3) = [2; 1; 0]
+  | None => False
+  end.
+Proof. vm_compute. repeat split; reflexivity. Qed.
+
+(* the three gates of the example of Props/C08.v fit that store (so tebd_step_accepts applies to it) *)
+Example gate_fits_example :
+  let s := fst (run empty_store [AddRoot 0 [2; 3]; AddChild 1 [3; 2; 2] 0 0 1; AddChild 2 [2; 2] 1 1 1]) in
+  Forall (gate_fits s) [ {| t_ids := [1; 0]; t_shape := [2; 2; 2; 2]; t_kind := 1; t_bond := 0 |};
+                         {| t_ids := [1; 2]; t_shape := [2; 2; 2; 2]; t_kind := 1; t_bond := 0 |};
+                         {| t_ids := [2]; t_shape := [2; 2]; t_kind := 1; t_bond := 0 |} ].
+Proof.
+  cbv zeta. apply Forall_cons; [|apply Forall_cons; [|apply Forall_cons; [|apply Forall_nil]]];
+    unfold gate_fits; cbn [t_ids t_shape]; (split; [|vm_compute; reflexivity]).
+  - eexists. split; [vm_compute; reflexivity|vm_compute; auto].
+  - eexists. split; [vm_compute; reflexivity|vm_compute; auto].
+  - eexists. vm_compute. reflexivity.
+Qed.
+
+(* ---- the exact child order of the restored pair ------------------------------------------------------ *)
+(* the lower node of the pair gets exactly its old child list back; in the upper node the partner is
+   moved to the front, the other children keep their order *)
+Theorem two_site_gate_children contr s a b g s1 s2 s3 na :
+  wfb s = true -> aget a (nodes s) = Some na -> aget contr (nodes s) = None ->
+  two_site_stages contr s a b g = Some (s1, s2, s3) ->
+  exists p c pn0 cn0 pn3 cn3,
+    ((p = a /\ c = b) \/ (p = b /\ c = a)) /\
+    aget p (nodes s) = Some pn0 /\ aget c (nodes s) = Some cn0 /\ parent cn0 = Some p /\ In c (children pn0) /\
+    aget p (nodes s3) = Some pn3 /\ aget c (nodes s3) = Some cn3 /\
+    parent pn3 = parent pn0 /\ children pn3 = c :: remove_first c (children pn0) /\
+    parent cn3 = Some p /\ children cn3 = children cn0.
+Proof.
+  intros Wb Ea Hc H. pose proof (proj1 (wfb_iff s) Wb) as W.
+  destruct (two_site_chain _ _ _ _ _ _ _ _ _ W Ea Hc H) as (nb & u & v & G).
+  destruct (gate_oriented _ _ _ _ _ _ _ _ _ _ _ _ W Ea G) as (p & c & pn0 & cn0 & su & sl & Hor & Ep0 & Ec0 & Hparc & Hcin & Hppc & Hpc &
+     Hsup & Hsuc & Hslp & Hslc & s2a & nd2 & t2 & cU & cL & nU & nL & tU & tL & bd & Hacc2 & W2a & V).
+  exists p, c, pn0, cn0, nU, nL.
+  split; [destruct Hor as [(-> & -> & _)|(-> & -> & _)]; auto|].
+  split; [exact Ep0|]. split; [exact Ec0|]. split; [exact Hparc|]. split; [exact Hcin|].
+  split; [apply (sv_nU _ _ _ _ _ _ _ _ _ _ _ _ _ _ _ _ V)|]. split; [apply (sv_nL _ _ _ _ _ _ _ _ _ _ _ _ _ _ _ _ V)|].
+  split.
+  { (* parent of the upper node = parent of the contracted node = old parent *)
+    rewrite (sv_nU_par _ _ _ _ _ _ _ _ _ _ _ _ _ _ _ _ V).
+    destruct (two_site_gate_same_tree_wf _ _ _ _ _ _ _ _ _ W Ea Hc H) as (_ & _ & St & _).
+    destruct (same_tree_some _ _ _ _ St Ep0) as (pn3' & Ep3 & Hpp & _).
+    rewrite (sv_nU _ _ _ _ _ _ _ _ _ _ _ _ _ _ _ _ V) in Ep3. injection Ep3 as <-.
+    rewrite Hpp. symmetry. apply (sv_nU_par _ _ _ _ _ _ _ _ _ _ _ _ _ _ _ _ V). }
+  split; [rewrite (sv_nU_ch _ _ _ _ _ _ _ _ _ _ _ _ _ _ _ _ V), Hsuc; reflexivity|].
+  split; [apply (sv_nL_par _ _ _ _ _ _ _ _ _ _ _ _ _ _ _ _ V)|].
+  rewrite (sv_nL_ch _ _ _ _ _ _ _ _ _ _ _ _ _ _ _ _ V). exact Hslc.
 Qed.
 
